@@ -35,6 +35,8 @@ CONSTANTS Sigma,      \* set of one-character strings the inputs are drawn from
           MaxPieces,  \*   at most MaxPieces pieces
           Given,      \* alternatively (when non-empty): an explicit set of input texts (character sequences)
           Prefix,     \* a character sequence put in front of every enumerated input (e.g. "globally:")
+          First,      \* only the enumerated inputs whose first character is in this set (and the empty one if "" is in it):
+                      \*   lets the harness split one enumeration over several TLC processes
           Keywords, Booleans, Constants,  \* sets of strings (predicate level)
           PropMode,     \* BOOLEAN: the text is a property (TRUE) or a predicate / expression (FALSE)
           PropKeywords  \* set of strings: the keywords of the property level
@@ -155,7 +157,8 @@ RECURSIVE Concats(_)
 Concats(k) == IF k = 0 THEN {<<>>} ELSE LET r == Concats(k - 1) IN r \cup {a \o p : a \in r, p \in Pieces}
 
 Inputs == IF Given # {} THEN Given
-          ELSE {Prefix \o t : t \in (IF Pieces = {} THEN UNION {[1..n -> Sigma] : n \in 0..MaxLen} ELSE Concats(MaxPieces))}
+          ELSE {Prefix \o t : t \in {u \in (IF Pieces = {} THEN UNION {[1..n -> Sigma] : n \in 0..MaxLen} ELSE Concats(MaxPieces)) :
+                                          IF u = <<>> THEN "" \in First ELSE u[1] \in First}}
 
 Rest == SubSeq(text, pos, Len(text))
 
